@@ -194,7 +194,6 @@ func (b *BudgetAggregator) createInputSets(inputs []SweeperInput,
 
 // filterInputs filters out inputs that have,
 // - a budget below the min relay fee.
-// - a budget below its requested starting fee.
 // - a required output that's below the dust.
 func (b *BudgetAggregator) filterInputs(inputs InputsMap) InputsMap {
 	// Get the current min relay fee for this round.
@@ -277,18 +276,26 @@ func (b *BudgetAggregator) filterInputs(inputs InputsMap) InputsMap {
 			continue
 		}
 
-		// Skip inputs that has cannot cover its starting fees.
+		// Warn about inputs that cannot cover their starting fees.
+		//
+		// NOTE: we don't skip these inputs. The starting fee rate may
+		// not be requested for this input alone - when a sweeping tx
+		// fails, all its inputs are given the next fee rate of the
+		// whole group, which can be more than what a small member of
+		// the group can pay on its own. Skipping it here would mean it
+		// is never offered again as its starting fee rate won't change.
+		// Instead, we rely on the fee function to cap the starting fee
+		// rate at the max fee rate allowed by the budget.
 		startingFeeRate := pi.params.StartingFeeRate.UnwrapOr(
 			chainfee.SatPerKWeight(0),
 		)
 		startingFee := startingFeeRate.FeeForWeight(wu)
 		if budget < startingFee {
-			log.Errorf("Skipped input=%v: has budget=%v, but the "+
-				"starting fee requires %v (feerate=%v), "+
-				"size=%v", op, budget, startingFee,
+			log.Warnf("Input=%v has budget=%v, but the starting "+
+				"fee requires %v (feerate=%v), size=%v, the "+
+				"fee rate will be capped by its budget", op,
+				budget, startingFee,
 				startingFeeRate.FeePerVByte(), wu.ToVB())
-
-			continue
 		}
 
 		// If the input comes with a required tx out that is below
